@@ -171,7 +171,27 @@ func VPH_C09_gate() {
 		opts.AllowedIPs = []string{e.token}
 	}
 	fs := vpStdTree()
-	env := vpServer(fs, opts)
+	// the policy is in force whether it was given at construction or installed at run time
+	var env *vpEnv
+	switch vpChoose("install", 0, 2) {
+	case 0:
+		vpReach("policy-at-construction")
+		env = vpServer(fs, opts)
+	case 1:
+		vpReach("policy-by-UpdateExportOptions")
+		env = vpServer(fs, ExportOptions{})
+		cur := env.nfs.GetExportOptions()
+		cur.Secure = opts.Secure
+		cur.AllowedIPs = opts.AllowedIPs
+		vpAssert(env.nfs.UpdateExportOptions(cur) == nil, "runtime-update-accepted")
+	default:
+		vpReach("policy-by-UpdatePolicyOptions")
+		env = vpServer(fs, ExportOptions{})
+		pol := *env.nfs.policy.Load()
+		pol.Secure = opts.Secure
+		pol.AllowedIPs = opts.AllowedIPs
+		vpAssert(env.nfs.UpdatePolicyOptions(pol) == nil, "runtime-policy-update-accepted")
+	}
 	h := env.handleFor("/d")
 	env.fs.log = nil
 	allowedAddr := vpOr(!useList, e.matches(client))
